@@ -48,6 +48,48 @@ pub fn long_strings(max_len: usize) -> Vec<String> {
     out
 }
 
+/// sources whose byte length is just beyond a power of 256 (so that a length computed in the prefix type wraps to a
+/// small number), with a multi-byte character straddling byte offset `cap`
+pub fn wrap_strings(cap: usize, modulus: usize) -> Vec<String> {
+    let mut out = vec![];
+    for extra in 0..=cap + 1 {
+        let total = modulus + extra;
+        for ch in ["\u{e9}", "\u{20ac}", "\u{1f600}"] {
+            for back in 1..ch.len() {
+                // the character starts `back` bytes before offset `cap`
+                if cap < back {
+                    continue;
+                }
+                let mut t = "a".repeat(cap - back);
+                t.push_str(ch);
+                while t.len() < total {
+                    t.push('a');
+                }
+                if t.len() == total {
+                    out.push(t);
+                }
+            }
+        }
+        out.push("a".repeat(total));
+    }
+    out
+}
+
+/// texts whose last character is a low control character (U+0001 … U+0008): bytes just above the NUL terminator
+pub fn control_strings(max_len: usize) -> Vec<String> {
+    let mut out = vec![];
+    for k in 0..=max_len {
+        for c in ['\u{1}', '\u{2}', '\u{7f}', '\u{80}'] {
+            let mut t = "a".repeat(k);
+            t.push(c);
+            out.push(t.clone());
+            t.push('b');
+            out.push(t);
+        }
+    }
+    out
+}
+
 pub const ALPHABET: [char; 5] = ['\0', 'a', '\u{e9}', '\u{20ac}', '\u{1f600}'];
 
 /// bytes covering every UTF-8 byte class
@@ -562,7 +604,11 @@ impl Sut for PodStrSut {
             4 => podstr_call!(4, buf.bytes_mut(), op),
             5 => podstr_call!(5, buf.bytes_mut(), op),
             7 => podstr_call!(7, buf.bytes_mut(), op),
+            8 => podstr_call!(8, buf.bytes_mut(), op),
+            9 => podstr_call!(9, buf.bytes_mut(), op),
             10 => podstr_call!(10, buf.bytes_mut(), op),
+            15 => podstr_call!(15, buf.bytes_mut(), op),
+            24 => podstr_call!(24, buf.bytes_mut(), op),
             16 => podstr_call!(16, buf.bytes_mut(), op),
             17 => podstr_call!(17, buf.bytes_mut(), op),
             20 => podstr_call!(20, buf.bytes_mut(), op),
@@ -715,7 +761,7 @@ impl PodSut {
     pub fn parse(&self, l: &str) -> Option<Op> {
         let ws: Vec<&str> = l.split_whitespace().collect();
         let name = *ws.first()?;
-        const NAMES: &[&str] = &["bool", "setb", "enc", "optval", "optset", "view", "store"];
+        const NAMES: &[&str] = &["bool", "setb", "enc", "optval", "optset", "view", "store", "viewmis"];
         let n = NAMES.iter().find(|n| **n == name)?;
         let (args, blob) = Op::parse_args(&ws[1..]);
         Some(Op { name: n, args, blob })
@@ -735,6 +781,26 @@ macro_rules! opt_call {
         let bytes: &mut [u8] = $bytes;
         match op.name {
             "view" => format!("x{}", hex(bytemuck::bytes_of(PodOption::<$t>::load(bytes)))),
+            "viewmis" => {
+                // the same bytes at every offset 0..8 of an 8-byte aligned scratch area: `load` either refuses the
+                // slice (bytemuck's alignment panic) or returns the view of exactly its first size_of bytes
+                let mut area = [0u64; 16];
+                let raw: &mut [u8] = bytemuck::cast_slice_mut(&mut area[..]);
+                let mut outs = vec![];
+                for off in 0..8usize {
+                    for b in raw.iter_mut() {
+                        *b = 0xEE;
+                    }
+                    raw[off..off + bytes.len()].copy_from_slice(bytes);
+                    let sl: &[u8] = &raw[off..off + bytes.len()];
+                    let r = std::panic::catch_unwind(std::panic::AssertUnwindSafe(|| hex(bytemuck::bytes_of(PodOption::<$t>::load(sl)))));
+                    outs.push(match r {
+                        Ok(h) => format!("x{h}"),
+                        Err(_) => "refused".to_string(),
+                    });
+                }
+                outs.join(",")
+            }
             "optval" => match PodOption::<$t>::load(bytes).value() {
                 Some(v) => format!("some x{}", hex(bytemuck::bytes_of(v))),
                 None => "none".to_string(),
@@ -809,7 +875,7 @@ impl Sut for PodSut {
             vec![Op::new("bool", &[]), Op::new("setb", &[0]), Op::new("setb", &[1]), Op::new("enc", &[0]), Op::new("enc", &[1]), Op::new("view", &[])]
         } else {
             let n = self.size();
-            let mut v = vec![Op::new("optval", &[]), Op::new("view", &[])];
+            let mut v = vec![Op::new("optval", &[]), Op::new("view", &[]), Op::new("viewmis", &[])];
             for pat in [vec![0u8; n], vec![0xffu8; n], vec![0x07u8; n], vec![0x01u8; n]] {
                 v.push(Op::with_blob("optset", &[], &pat));
                 v.push(Op::with_blob("store", &[], &pat));
@@ -874,6 +940,12 @@ impl Sut for PodSut {
     fn oracle(&self, pre: &[u8], op: &Op, out: &OpOut, post: &[u8]) -> Vec<Finding> {
         let mut f = vec![];
         let n = self.size();
+        if pre.len() < n && op.name == "viewmis" {
+            if out.result.split(',').any(|o| o != "refused") {
+                f.push(Finding { property: "C15", what: format!("`load` over a {}-byte buffer (size_of = {}) was not refused: {}", pre.len(), n, out.result) });
+            }
+            return f;
+        }
         if pre.len() < n {
             if out.panic.is_none() && op.name != "enc" {
                 f.push(Finding { property: "C15", what: format!("`{}` on a {}-byte buffer (size_of = {}) did not panic: {}", op.text(), pre.len(), n, out.result) });
@@ -882,6 +954,16 @@ impl Sut for PodSut {
         }
         if out.panic.is_some() {
             return f; // reported as C12-style panic by the engine; for C15 a panic on a long-enough buffer is wrong:
+        }
+        if op.name == "viewmis" {
+            let want = format!("x{}", hex(&pre[..n]));
+            for (off, o) in out.result.split(',').enumerate() {
+                if o != "refused" && o != want {
+                    f.push(Finding { property: "C15", what: format!("`load` of {:02x?} placed {} byte(s) past an 8-byte boundary returned the view {} (expected the first size_of bytes {} or a refusal)", pre, off, o, want) });
+                    break;
+                }
+            }
+            return f;
         }
         let exp: Option<String> = match op.name {
             "bool" => Some((pre[0] != 0).to_string()),
